@@ -746,6 +746,61 @@ def unusual_values_and_histories_oracle(ck, cfgs):
                               "%s class of a valid %s node fails %s after a configuration of the same class object was rejected (rejected: %s)"
                               % (which, name, [e[0] for e in errs], rejected), {"kind": "rejected-then-valid", "class": name})
                 break
+    # (c) the configuration mapping a sweep was built from is edited IN PLACE afterwards (a typo that is rightly rejected, then a
+    # valid edit): the classes generated for the first node still satisfy the contracts and still describe the first node
+    for elem, pname in (("FloatMultiplyOperation", "factor"), ("FloatValueDataSource", "value")):
+        for edit in ("2 * * t", "3 * t"):
+            cfg = {"processor": elem, "derive": {"parameter_sweep": {"parameters": {pname: "2 * t"}, "variables": {"t": [1.0, 2.0]},
+                                                                      "collection": "FloatDataCollection"}}}
+            try:
+                node = _pipeline_node_factory(cfg)
+                before = {which: [d for d in diags_of(k) if d[1] == "error"] for which, k in (("node", type(node)), ("processor", type(node.processor)))}
+                meta_before = json.dumps(type(node.processor).get_metadata(), sort_keys=True, default=repr)
+            except Exception as ex:  # noqa
+                ck.corr_problem("in-place-edit oracle: the first sweep node could not be built", repr(ex)[:300])
+                continue
+            cfg["derive"]["parameter_sweep"]["parameters"][pname] = edit        # the caller goes on editing its own mapping
+            try:
+                _pipeline_node_factory(cfg)
+            except Exception:  # noqa - the typo is rejected, as it should be
+                pass
+            n += 1
+            rep = {"kind": "config-edited-in-place", "element": elem, "edit": edit}
+            try:
+                after = {which: [d for d in diags_of(k) if d[1] == "error"] for which, k in (("node", type(node)), ("processor", type(node.processor)))}
+                meta_after = json.dumps(type(node.processor).get_metadata(), sort_keys=True, default=repr)
+            except Exception as ex:  # noqa
+                ck.fail_input("C16:generated-class-metadata-raises:sweep:config-edited-in-place",
+                              "after the caller edits the expression in its own configuration mapping to %r, get_metadata / validate_component of the FIRST node's classes raises %r" % (edit, ex), rep)
+                continue
+            errs = [e for which in after for e in after[which] if e not in before[which]]
+            if errs:
+                ck.fail_input("C16:%s:sweep:config-edited-in-place" % errs[0][0],
+                              "after the caller edits the expression in its own configuration mapping to %r, the classes generated for the first node fail %s" % (edit, sorted({e[0] for e in errs})), rep)
+            elif meta_after != meta_before:
+                ck.fail_input("C16:generated-class-metadata-changes:sweep:config-edited-in-place",
+                              "after the caller edits the expression in its own configuration mapping to %r, the metadata of the class generated for the FIRST node changes" % edit, rep)
+    # (d) a processor specialised through node parameters (ModelFittingContextProcessor: variable mapping, output key) given an
+    # output key of another YAML scalar type (context_key: 2024 / 2.5 / true): rejected at build time, or contract-clean classes
+    FIT = "model:PolynomialFittingModel:degree=1"
+    for key in (2024, 2.5, True, "fit.out", "out[0]"):
+        for form, params in (("mapped", {"fitting_model": FIT, "independent_var_key": "xs", "dependent_var_key": "ys", "context_key": key}),
+                             ("key-only", {"fitting_model": FIT, "context_key": key})):
+            try:
+                node = _pipeline_node_factory({"processor": "ModelFittingContextProcessor", "parameters": dict(params)})
+            except Exception:  # noqa - rejected: nothing generated
+                continue
+            n += 1
+            for which, k in (("node", type(node)), ("processor", type(node.processor))):
+                try:
+                    errs = [d for d in diags_of(k) if d[1] == "error"]
+                except Exception as ex:  # noqa
+                    errs = [("raises %r" % (ex,), "error")]
+                if errs:
+                    ck.fail_input("C16:%s:model-fit-%s:non-string-output-key" % (errs[0][0], form),
+                                  "ModelFittingContextProcessor (%s form) with context_key %r is accepted and its generated %s class fails %s"
+                                  % (form, key, which, [e[0] for e in errs]), {"kind": "model-fit-output-key", "form": form, "context_key": repr(key)})
+                    break
     return {"runs": n}
 
 
